@@ -31,11 +31,16 @@ CLAIMS = {
         text="Proof on the abstract object model (seq_len / item) that __Pyx_GetItemInt_List_Fast and __Pyx_GetItemInt_Tuple_Fast - "
              "taken from the generated module in the release (-DNDEBUG) configuration - return exactly the element at the index "
              "wrapped once when -len <= i < len, hand every other checked index to CPython's generic item access with the ORIGINAL "
-             "index, for every (wraparound, boundscheck) flag combination, and never touch ob_item[] outside [0, len). Kernel: integer "
-             "indexing of exact lists and tuples.",
+             "index, for every (wraparound, boundscheck) flag combination, and never touch ob_item[] outside [0, len). The same for "
+             "__Pyx_SetItemInt_Fast on an exact list (exactly the wrapped slot is overwritten with v, or nothing is stored and the "
+             "generic assignment gets an int object holding the ORIGINAL index), __Pyx_GetItemInt_Bytes_Fast (the byte as an int "
+             "0..255 or IndexError) and __Pyx_{Get,Set}ItemInt_ByteArray_Fast_Locked (read / write of exactly one byte, IndexError, "
+             "nothing else changed). Kernel: integer indexing of exact lists, tuples, bytes and bytearrays; item assignment on lists "
+             "and bytearrays.",
         note="Trusted: dv C front end, dv/pyobj.py (element array model, PyList_GET_SIZE/PyTuple_GET_SIZE, generic access delegated to "
-             "CPython), z3. Unverified: str/bytes/bytearray/unicode indexing helpers, SetItemInt/DelItemInt, slicing (SliceObject), "
-             "helper selection in IndexNode.",
+             "CPython; bytes / bytearray buffers as length + char array; PyList_SET_ITEM as a ghost store with a bounds obligation), "
+             "z3. Unverified: str indexing (Unicode_Fast), DelItemInt, the non-list paths of SetItemInt (type slots), object indices, "
+             "slicing (SliceObject, PyUnicode_Substring), helper selection in IndexNode.",
         ref="4 C15"),
     "C09": dict(
         text="Proof of the data-structure contract of the numeric constant pool in Code.py (GlobalState.num_const_index as an abstract map "
@@ -145,7 +150,10 @@ CLAIMS = {
              "(sign/size comparison, 1- and 2-digit fast paths, digit loop with invariant and termination) returns value(op1) <op> value(op2) "
              "for exact ints of ANY size; the dispatcher __Pyx_PyObject_CompareBool<Op>_object_object compares exact floats / ints by value, "
              "sends every other pair of builtin types to the helper for exactly that pair in that argument order and everything else to "
-             "PyObject_RichCompare(op1, op2, Py_<OP>); __Pyx_PyLong_{Eq,Ne}ObjC (x == c, x != c). (b) For a catalogue of C-integer functions "
+             "PyObject_RichCompare(op1, op2, Py_<OP>); __Pyx_PyLong_{Eq,Ne}ObjC (x == c, x != c); the 24 bytes / bytearray comparison helpers "
+             "(all four type pairs, six operators) answer CPython's lexicographic comparison of the UNSIGNED bytes, then of the lengths "
+             "(memcmp by its C contract incl. the sign of the first differing byte; char objects read through unsigned char pointers). "
+             "(b) For a catalogue of C-integer functions "
              "(if/elif chains rewritten into C switches, `in`/`not in` against literal tuples and bytes literals, chained comparisons, "
              "and/or/not mixes) the C function the working-tree compiler emits returns, for ALL argument values, the value Python's "
              "semantics give the same source text (reference evaluator dv/pyref.py over the catalogue's own ast, validated against "
@@ -263,7 +271,9 @@ CLAIMS = {
              "PyNumber_Power/InPlacePower result, with no undefined shift on the way; proof that the loop-free part of IntPow "
              "(e in 0..3, and e < 0 for signed types) is exact and UB-free for every instantiated C integer type whenever the result "
              "fits. The square-and-multiply loop of IntPow is only covered by a BOUNDED native check (exhaustive for 8/16-bit types), "
-             "labelled bounded and not counted as proved.",
+             "labelled bounded and not counted as proved. ExprNodes.PowNode.py_operation_function selects the PowerOf2 helpers (which "
+             "ignore their base argument) only when operand1's constant is an int AND equals 2 - their call-site precondition - with "
+             "`== 2` and isinstance(., int) as uninterpreted predicates on abstract constants (2.0 == 2 holds in Python).",
         note="Trusted: dv C front end, the object model of dv/pyobj.py (PyLong 3.12 representation contract, C-API stubs, allocation "
              "never fails, refcounts not modelled), z3. Unverified: PowNode result-type table (cpow), float/complex pow, the IntPow loop "
              "(its final squaring is signed overflow for e.g. 3**19 as int: strict-C UB, masked by -fwrapv/-fno-strict-overflow builds).",
@@ -313,7 +323,10 @@ CLAIMS = {
              "C int range) the bytes appended by encode_single_position decode to exactly that position and the returned running line is "
              "the decoder's; encode_varint by width-bounded unrolling with unwinding assertion; range obligations for the cython.int "
              "locals so the proof covers the compiled module; build_line_table: every iteration meets the entry contract with the "
-             "decoder's running line. Kernel: the encoder only.",
+             "decoder's running line. Code.py: the loop of generate_codeobject_constants that sizes the packed code-object description "
+             "(statement fragment located by source anchors; loop invariant) bounds every code object's first line, variable count and "
+             "argument counts by the maxima the bit-field widths are computed from - a first line that does not fit its field would "
+             "shift every decoded position. Kernel: the encoder and this sizing loop.",
         note="Trusted: dv Python front end, z3/cvc5, the decoder transcription (spec-validated natively). Not proved: the quantified "
              "whole-table invariant (composition by the append-only/locality argument, DESIGN.md); position collection in the compiler, "
              "AddTraceback, and that the shipped .so was compiled from this .py.",
